@@ -23,6 +23,8 @@ type SeqJob struct {
 	// schedule, so that goroutine timing inside the code under test cannot
 	// vary between a run and its replay.
 	Controlled bool
+	// NoBonus: no extra depth on the bonus time budget (jobs whose required depth already uses the quick tier's time)
+	NoBonus bool
 	// Run enumerates; it must honour ctx.Expired() and report through ctx.
 	Run func(ctx *SeqCtx)
 	// Replay re-executes one recorded case (Violation.Ops) and returns clause/detail.
@@ -290,7 +292,7 @@ func bfs(ctx *SeqCtx, alphabet []string, depth int, exec func(hist []int) (claus
 		}
 		// bonus: one more level on a separate, short time budget once the required depth is complete; a level
 		// that is not finished leaves depth_completed (and the verdict for the required depth) as it is
-		if d == depth && !bonus && BonusBudget > 0 && ctx.viol == nil && !ctx.st.TimedOut {
+		if d == depth && !bonus && BonusBudget > 0 && !ctx.job.NoBonus && ctx.viol == nil && !ctx.st.TimedOut {
 			bonus = true
 			saved = ctx.deadline
 			bd := time.Now().Add(BonusBudget)
